@@ -7,10 +7,8 @@
      every operation sequence on one container (so the closed forms apply at
      every step of every sequence);
    * [exec_refines_spec]: every operation refines the atomic CAS specification
-     [spec_op] on the view (for remove_if_equals under the guard
-     [remove_guard]: the cache is loaded when _remove_packed_ref runs, or the
-     ref is not packed);
-   * refutations by concrete witnesses: cold-cache remove, the 4-step lost
+     [spec_op] on the view;
+   * refutations by concrete witnesses: the 4-step lost
      update, the stale-cache serial failure, resurrecting packed-refs rewrite;
    * [serial_linearizable]: two updaters that do not overlap and start with
      coherent caches are linearizable. *)
@@ -216,10 +214,6 @@ Section Exec.
     destruct (valid rn); reflexivity.
   Qed.
 
-  (* is the packed cache loaded when _remove_packed_ref runs? *)
-  Definition remove_warm (pc : pcache) (st : store) (n : name) (old : option val) : bool :=
-    is_some pc || (is_some old && negb (is_some (loose st n))).
-
   (* remove_if_equals *)
   Lemma exec_remove :
     forall st pc n old,
@@ -229,51 +223,38 @@ Section Exec.
           (st', mkThread (TDone (RRet (cas_ok old (cur (view st) n)))) pc') /\
         if cas_ok old (cur (view st) n)
         then loose st' = upd (loose st) n None /\
-             (forall x, packed st' x =
-                        if remove_warm pc st n old then upd (packed st) n None x else packed st x)
+             (forall x, packed st' x = upd (packed st) n None x)
         else st' = st.
   Proof.
     intros st pc n old Hv Hc.
     unfold exec. cbn [step1 ts tc]. unfold remove_check. rewrite Hv. cbn [negb].
-    assert (Hdel : forall pc1, coherent pc1 st -> is_some pc1 = remove_warm pc st n old ->
+    assert (Hdel : forall pc1,
       exists st' pc', coherent pc' st' /\
         (let '(s2, t2) := step1 valid st (mkThread (TRmDelete n) pc1) in step1 valid s2 t2) =
           (st', mkThread (TDone (RRet true)) pc') /\
         loose st' = upd (loose st) n None /\
-        (forall x, packed st' x =
-                   if remove_warm pc st n old then upd (packed st) n None x else packed st x)).
-    { intros pc1 Hc1 Hw. rewrite <- Hw. cbn [step1 ts tc].
-      destruct pc1 as [m1|]; cbn [is_some].
-      - cbn [packed]. destruct (packed st n) as [s|] eqn:Ep.
-        + cbn [step1 ts tc].
-          exists (mkStore (upd (loose st) n None) (upd (packed st) n None)), (Some (upd (packed st) n None)).
-          split; [apply (coherent_self (mkStore (upd (loose st) n None) (upd (packed st) n None)))|].
-          split; [reflexivity|]. split; reflexivity.
-        + cbn [step1 ts tc].
-          exists (mkStore (upd (loose st) n None) (packed st)), (Some (packed st)).
-          split; [apply (coherent_self (mkStore (upd (loose st) n None) (packed st)))|].
-          split; [reflexivity|]. split; [reflexivity|].
-          intro x. cbn [packed]. unfold upd. destruct (N.eqb x n) eqn:E; [|reflexivity].
-          apply N.eqb_eq in E. subst x. exact Ep.
+        (forall x, packed st' x = upd (packed st) n None x)).
+    { intros pc1. cbn [step1 ts tc packed].
+      destruct (packed st n) as [s|] eqn:Ep.
       - cbn [step1 ts tc].
-        exists (mkStore (upd (loose st) n None) (packed st)), None.
-        split; [apply coherent_none|]. split; [reflexivity|]. split; reflexivity. }
+        exists (mkStore (upd (loose st) n None) (upd (packed st) n None)), (Some (upd (packed st) n None)).
+        split; [apply (coherent_self (mkStore (upd (loose st) n None) (upd (packed st) n None)))|].
+        split; [reflexivity|]. split; reflexivity.
+      - cbn [step1 ts tc].
+        exists (mkStore (upd (loose st) n None) (packed st)), (Some (packed st)).
+        split; [apply (coherent_self (mkStore (upd (loose st) n None) (packed st)))|].
+        split; [reflexivity|]. split; [reflexivity|].
+        intro x. cbn [packed]. unfold upd. destruct (N.eqb x n) eqn:E; [|reflexivity].
+        apply N.eqb_eq in E. subst x. exact Ep. }
     destruct old as [o|]; cbn [cas_ok].
     - destruct (orig_ref st pc n) as [orig pc1] eqn:Eo.
-      destruct (orig_ref_coh st pc n Hc) as (Ho & Hc1 & Hl1 & Hl2).
-      rewrite Eo in Ho, Hc1, Hl1, Hl2. cbn [fst snd] in Ho, Hc1, Hl1, Hl2.
+      destruct (orig_ref_coh st pc n Hc) as (Ho & Hc1 & _).
+      rewrite Eo in Ho, Hc1. cbn [fst snd] in Ho, Hc1.
       rewrite Ho. destruct (val_eqb (cur (view st) n) o) eqn:Ev.
-      + assert (Hw : is_some pc1 = remove_warm pc st n (Some o)).
-        { unfold remove_warm. cbn [is_some andb].
-          destruct (loose st n) as [v|] eqn:El; cbn [is_some negb].
-          - rewrite Hl2 by discriminate. rewrite orb_false_r. reflexivity.
-          - rewrite orb_true_r. specialize (Hl1 eq_refl). destruct pc1; [reflexivity|contradiction]. }
-        destruct (Hdel pc1 Hc1 Hw) as (st' & pc' & H1 & H2 & H3 & H4).
+      + destruct (Hdel pc1) as (st' & pc' & H1 & H2 & H3 & H4).
         exists st', pc'. split; [exact H1|]. split; [exact H2|]. split; assumption.
       + cbn [step1 ts tc]. exists st, pc1. split; [exact Hc1|]. split; reflexivity.
-    - assert (Hw : is_some pc = remove_warm pc st n None).
-      { unfold remove_warm. cbn [is_some andb]. rewrite orb_false_r. reflexivity. }
-      destruct (Hdel pc Hc Hw) as (st' & pc' & H1 & H2 & H3 & H4).
+    - destruct (Hdel pc) as (st' & pc' & H1 & H2 & H3 & H4).
       exists st', pc'. split; [exact H1|]. split; [exact H2|]. split; assumption.
   Qed.
 
@@ -321,12 +302,6 @@ Section Exec.
 
   (* ------------------------------------------ refinement of the atomic spec -- *)
 
-  Definition remove_guard (pc : pcache) (st : store) (o : op) : bool :=
-    match o with
-    | OpRemove n old => remove_warm pc st n old || negb (is_some (packed st n))
-    | _ => true
-    end.
-
   Lemma view_remove :
     forall st st' n,
       loose st' = upd (loose st) n None ->
@@ -339,11 +314,11 @@ Section Exec.
 
   Theorem exec_refines_spec :
     forall o st pc,
-      coherent pc st -> remove_guard pc st o = true ->
+      coherent pc st ->
       res_of (snd (exec valid o st pc)) = Some (fst (spec_op valid o (view st))) /\
       forall x, view (fst (exec valid o st pc)) x = snd (spec_op valid o (view st)) x.
   Proof.
-    intros [n old new|n new|n old] st pc Hc Hg; cbn [spec_op].
+    intros [n old new|n new|n old] st pc Hc; cbn [spec_op].
     - destruct (valid n) eqn:Hv; cbn [negb].
       + destruct (exec_set st pc n old new Hv Hc) as (pc' & Hc' & E). rewrite E.
         fold (cas_ok old (cur (view st) (target (view st) n))).
@@ -361,10 +336,7 @@ Section Exec.
         fold (cas_ok old (cur (view st) n)).
         destruct (cas_ok old (cur (view st) n)); cbn [fst snd res_of ts].
         * split; [reflexivity|]. destruct H as [Hl Hp].
-          apply view_remove; [exact Hl|]. intro x. rewrite Hp.
-          cbn [remove_guard] in Hg. destruct (remove_warm pc st n old); [reflexivity|].
-          cbn [orb] in Hg. unfold upd. destruct (N.eqb x n) eqn:Ex; [|reflexivity].
-          apply N.eqb_eq in Ex. subst x. destruct (packed st n); [discriminate|reflexivity].
+          apply view_remove; [exact Hl|exact Hp].
         * subst st'. split; reflexivity.
       + unfold exec. cbn [step1 ts tc]. unfold remove_check. rewrite Hv. cbn [negb step1 ts tc fst snd].
         split; reflexivity.
@@ -476,21 +448,19 @@ Proof.
   destruct (step1 valid x5 y5) as [x6 y6]. reflexivity.
 Qed.
 
-(* two updaters that do not overlap, each starting with a coherent cache (and
-   with the cache loaded whenever a packed ref is to be removed) are linearizable *)
+(* two updaters that do not overlap, each starting with a coherent cache, are linearizable *)
 Theorem serial_linearizable :
   forall valid st oa ca ob cb,
-    coherent ca st -> remove_guard ca st oa = true ->
+    coherent ca st ->
     coherent cb (fst (exec valid oa st ca)) ->
-    remove_guard cb (fst (exec valid oa st ca)) ob = true ->
     linearizable valid oa ob st
       (run_sched valid [0; 0; 0; 1; 1; 1] (sys_init st oa ca ob cb)).
 Proof.
-  intros valid st oa ca ob cb Hca Hga Hcb Hgb.
+  intros valid st oa ca ob cb Hca Hcb.
   rewrite run_serial.
-  destruct (exec_refines_spec valid oa st ca Hca Hga) as [Ra Va].
+  destruct (exec_refines_spec valid oa st ca Hca) as [Ra Va].
   destruct (exec valid oa st ca) as [s1 t1] eqn:Ea. cbn [fst snd] in *.
-  destruct (exec_refines_spec valid ob s1 cb Hcb Hgb) as [Rb Vb].
+  destruct (exec_refines_spec valid ob s1 cb Hcb) as [Rb Vb].
   destruct (exec valid ob s1 cb) as [s2 t2] eqn:Eb. cbn [fst snd] in *.
   destruct (spec_op_ext valid ob (view s1) (snd (spec_op valid oa (view st))) Va) as [X1 X2].
   exists (fst (spec_op valid oa (view st))),
@@ -509,18 +479,6 @@ Qed.
 Definition st_loose1 : store := mk_store [(1%N, VSha 1%N)] [].
 Definition st_packed1 : store := mk_store [] [(1%N, 1%N)].
 Definition st_packed12 : store := mk_store [] [(1%N, 1%N); (2%N, 2%N)].
-
-(* (a) remove_if_equals on a packed ref with a cold cache: "deleted", yet still there *)
-Lemma remove_cold_cache_refuted :
-  exists st pc n old,
-    coherent pc st /\ cas_ok old (cur (view st) n) = true /\
-    res_of (snd (exec all_valid (OpRemove n old) st pc)) = Some (RRet true) /\
-    view (fst (exec all_valid (OpRemove n old) st pc)) n <> None.
-Proof.
-  exists st_packed1, None, 1%N, None.
-  split; [apply coherent_none|]. split; [reflexivity|]. split; [reflexivity|].
-  vm_compute. discriminate.
-Qed.
 
 (* (b) the lost update: A and B both expect 1; A.check B.check A.put B.put *)
 Lemma interleaved_refuted :
@@ -678,7 +636,7 @@ Section Statements.
     rewrite V, N.eqb_refl. reflexivity.
   Qed.
 
-  Theorem remove_if_equals_cas_partial :
+  Theorem remove_if_equals_cas :
     forall st pc n old,
       valid n = true -> coherent pc st ->
       let st' := fst (exec valid (OpRemove n old) st pc) in
@@ -687,8 +645,8 @@ Section Statements.
       ((old = None \/ old = Some (cur (view st) n)) ->
          res_of t' = Some (RRet true) /\
          loose st' = upd (loose st) n None /\
-         (forall x, packed st' x =
-                    if remove_warm pc st n old then upd (packed st) n None x else packed st x)) /\
+         (forall x, packed st' x = upd (packed st) n None x) /\
+         (forall x, view st' x = if N.eqb x n then None else view st x)) /\
       (forall o, old = Some o -> o <> cur (view st) n ->
          res_of t' = Some (RRet false) /\ st' = st).
   Proof.
@@ -697,37 +655,14 @@ Section Statements.
     cbn [fst snd tc res_of ts]. split; [exact Hc'|].
     destruct (cas_ok old (cur (view st) n)) eqn:Ek.
     - split.
-      + intros _. destruct H as [Hl Hp]. split; [reflexivity|]. split; assumption.
+      + intros _. destruct H as [Hl Hp]. split; [reflexivity|]. split; [exact Hl|]. split; [exact Hp|].
+        intro x. rewrite (view_remove st s' n Hl Hp). reflexivity.
       + intros o Ho Hn. exfalso.
         assert (F : cas_ok old (cur (view st) n) = false) by (apply cas_ok_false; eauto).
         congruence.
     - split.
       + intro Ho. apply cas_ok_true in Ho. congruence.
       + intros o Ho Hn. split; [reflexivity|exact H].
-  Qed.
-
-  Theorem remove_if_equals_cas_guarded :
-    forall st pc n old,
-      valid n = true -> coherent pc st ->
-      remove_guard pc st (OpRemove n old) = true ->
-      let st' := fst (exec valid (OpRemove n old) st pc) in
-      let t' := snd (exec valid (OpRemove n old) st pc) in
-      coherent (tc t') st' /\
-      ((old = None \/ old = Some (cur (view st) n)) ->
-         res_of t' = Some (RRet true) /\
-         (forall x, view st' x = if N.eqb x n then None else view st x)) /\
-      (forall o, old = Some o -> o <> cur (view st) n ->
-         res_of t' = Some (RRet false) /\ st' = st).
-  Proof.
-    intros st pc n old Hv Hc Hg st' t'.
-    destruct (remove_if_equals_cas_partial st pc n old Hv Hc) as (H0 & H1 & H2).
-    fold st' t' in H0, H1, H2. split; [exact H0|]. split; [|exact H2].
-    intro Ho. destruct (H1 Ho) as (R & Hl & Hp). split; [exact R|].
-    intro x. rewrite (view_remove st st' n Hl); [reflexivity|].
-    intro y. rewrite Hp. cbn [remove_guard] in Hg.
-    destruct (remove_warm pc st n old); [reflexivity|]. cbn [orb] in Hg.
-    unfold upd. destruct (N.eqb y n) eqn:Ey; [|reflexivity].
-    apply N.eqb_eq in Ey. subst y. destruct (packed st n); [discriminate|reflexivity].
   Qed.
 
   Theorem add_if_new_never_overwrites :
